@@ -223,7 +223,8 @@ def time_get(string):
         return default_values("time")
 
     if isinstance(string, dt.time):
-        return dt.datetime.strptime(string.strftime(FORMAT_TIME), FORMAT_TIME).time()
+        # Drop the sub-second part and any time zone.
+        return dt.time(string.hour, string.minute, string.second)
 
     return dt.datetime.strptime(string, FORMAT_TIME).time()
 
@@ -265,7 +266,10 @@ def datetime_get(string):
         return default_values("datetime")
 
     if isinstance(string, dt.datetime):
-        return dt.datetime.strptime(string.strftime(FORMAT_DATETIME), FORMAT_DATETIME)
+        # Drop the sub-second part and any time zone. Do not go via strftime:
+        # years before 1000 are not zero padded there and cannot be parsed back.
+        return dt.datetime(string.year, string.month, string.day,
+                           string.hour, string.minute, string.second)
 
     return dt.datetime.strptime(string, FORMAT_DATETIME)
 
